@@ -371,3 +371,374 @@ Section Prefix2.
       rewrite !E1. apply (pre_stmts_tail px f Iget Istmts o q stops ge any _ t ts).
   Qed.
 End Prefix2.
+
+(* ---------------------------------------------------------------------- *)
+(* Inductive steps of the mutual prefix lemma: P<fn> (S f) from the P's at f.
+   Done: stmts (above), follow_stmts, block, subshell, while, elif, if, func_decl, and_or, pipe_loop, get_stmt.
+   Open: stmt_pipe (gotStmtPipe), for_clause, case_clause, case_items. *)
+Section P3.
+  Variable r : list token.
+  Variable px : bool.
+  Notation pre_l := (pre_g end_l (lock_l r)).
+  Notation pre_lb := (pre_g end_lb (lock_lb r)).
+  Notation pre_o ts := (pre_g (end_o ts) (lock_o r)).
+  Notation pre_ob ts := (pre_g (end_ob ts) (lock_ob r)).
+
+  Definition Pstmts f := forall o q stops ge any ts, pre_lb (stmts px f o q stops ge any (ts ++ r)) (stmts px f o q stops ge any ts).
+  Definition Pget f := forall o q re bc ts, pre_ob ts (get_stmt px f (S o) q re bc (ts ++ r)) (get_stmt px f (S o) q re bc ts).
+  Definition Pandor f := forall o q re bc ts, pre_ob ts (and_or px f (S o) q re bc (ts ++ r)) (and_or px f (S o) q re bc ts).
+  Definition Ppipe f := forall o q ng bc sp sp' ts, pre_o ts (stmt_pipe px f (S o) q ng bc sp (ts ++ r)) (stmt_pipe px f (S o) q ng bc sp' ts).
+  Definition Pploop f := forall o q bc ts, pre_o ts (pipe_loop px f (S o) q bc (ts ++ r)) (pipe_loop px f (S o) q bc ts).
+  Definition Pfollow f := forall o q lpos lpos' stops ts, pre_l (follow_stmts px f (S o) q lpos stops (ts ++ r)) (follow_stmts px f (S o) q lpos' stops ts).
+  Definition Pblock f := forall o q t ts, pre_l (block px f (S o) q ((t :: ts) ++ r)) (block px f (S o) q (t :: ts)).
+  Definition Psub f := forall o t ts, pre_l (subshell px f (S o) ((t :: ts) ++ r)) (subshell px f (S o) (t :: ts)).
+  Definition Pif f := forall o q t ts, pre_l (if_clause px f (S o) q ((t :: ts) ++ r)) (if_clause px f (S o) q (t :: ts)).
+  Definition Pelif f := forall o q ipos ipos' ts, pre_l (elif_loop px f (S o) q ipos (ts ++ r)) (elif_loop px f (S o) q ipos' ts).
+  Definition Pwhile f := forall o q t ts, pre_l (while_clause px f (S o) q ((t :: ts) ++ r)) (while_clause px f (S o) q (t :: ts)).
+  Definition Pfor f := forall o q t ts, pre_l (for_clause px f (S o) q ((t :: ts) ++ r)) (for_clause px f (S o) q (t :: ts)).
+  Definition Pcase f := forall o q t ts, pre_l (case_clause px f (S o) q ((t :: ts) ++ r)) (case_clause px f (S o) q (t :: ts)).
+  Definition Pitems f := forall o prev prev' ts, pre_l (case_items px f (S o) prev (ts ++ r)) (case_items px f (S o) prev' ts).
+  Definition Pfunc f := forall o q npos npos' ts, pre_l (func_decl px f (S o) q npos (ts ++ r)) (func_decl px f (S o) q npos' ts).
+
+  Lemma bind_POk : forall A B (a : A) (k : A -> pres B), bind (POk a) k = k a.
+  Proof. reflexivity. Qed.
+
+  Lemma bind_perr : forall A B o x c p (k : A -> pres B), bind (perr o x c p) k = perr o x c p.
+  Proof. reflexivity. Qed.
+
+  Ltac eofr := cbv [eof_ok end_l end_lb end_o end_ob fst]; try reflexivity.
+
+  Lemma pre_l_lock : forall t x, pre_l (POk ((t :: x) ++ r)) (POk (t :: x)).
+  Proof. intros. left. eexists. split; [reflexivity|]. split; [discriminate|reflexivity]. Qed.
+
+  (* closing-token continuation: match r1 with T :: r2 => POk r2 | _ => perr *)
+  Lemma follow_S : forall f o q lpos stops ts, follow_stmts px (S f) o q lpos stops ts =
+    match ts with
+    | TSemi :: r0 => perr o r0 EFollowStmts lpos
+    | _ => bind (stmts px f o q stops true false ts) (fun v => let '(r0, any) := v in if any then POk r0 else perr o r0 EFollowStmts lpos)
+    end.
+  Proof. reflexivity. Qed.
+
+  Lemma step_follow : forall f, Pstmts f -> Pfollow (S f).
+  Proof.
+    intros f Is o q lpos lpos' stops ts.
+    destruct ts as [|t ts]; [apply pre_g_eof; apply (proj1 (proj2 (proj2 (proj2 (proj2 (proj2 (eof_all px (S f)))))))) |].
+    rewrite !follow_S. simpl app.
+    assert (G : pre_l
+      (bind (stmts px f (S o) q stops true false ((t :: ts) ++ r)) (fun v => let '(r0, any) := v in if any then POk r0 else perr (S o) r0 EFollowStmts lpos))
+      (bind (stmts px f (S o) q stops true false (t :: ts)) (fun v => let '(r0, any) := v in if any then POk r0 else perr (S o) r0 EFollowStmts lpos'))).
+    { eapply pre_g_bind; [apply Is| |].
+      - intros [a b] [a' b'] (Hne & E1 & E2). simpl in *. subst. destruct b'; [|apply pre_perr].
+        destruct a' as [|t1 a']; [congruence|]. apply pre_l_lock.
+      - intros [a b] E. unfold end_lb in E. simpl in E. subst. destruct b; eofr. }
+    destruct t; try exact G. apply pre_perr.
+  Qed.
+
+  Lemma block_S : forall f o q ts, block px (S f) o q ts =
+    bind (follow_stmts px f o q (length ts) [TRbrace] (tl ts)) (fun r1 =>
+      match r1 with TRbrace :: r2 => POk r2 | _ => perr o r1 EMatch (length ts) end).
+  Proof. reflexivity. Qed.
+
+  Lemma step_block : forall f, Pfollow f -> Pblock (S f).
+  Proof.
+    intros f If o q t ts. rewrite !block_S. simpl tl.
+    eapply pre_g_bind; [apply If| |].
+    - intros v v' [Hne ->]. destruct v' as [|t1 y]; [congruence|]. simpl app.
+      destruct t1; try apply pre_perr. apply pre_l_any.
+    - intros a ->. apply eof_perr.
+  Qed.
+
+  Lemma subshell_S : forall f o ts, subshell px (S f) o ts =
+    bind (follow_stmts px f o QSub (length ts) [] (tl ts)) (fun r1 =>
+      match r1 with TRparen :: r2 => POk r2 | _ => perr o r1 EMatch (length ts) end).
+  Proof. reflexivity. Qed.
+
+  Lemma step_sub : forall f, Pfollow f -> Psub (S f).
+  Proof.
+    intros f If o t ts. rewrite !subshell_S. simpl tl.
+    eapply pre_g_bind; [apply If| |].
+    - intros v v' [Hne ->]. destruct v' as [|t1 y]; [congruence|]. simpl app.
+      destruct t1; try apply pre_perr. apply pre_l_any.
+    - intros a ->. apply eof_perr.
+  Qed.
+
+  Lemma while_S : forall f o q ts, while_clause px (S f) o q ts =
+    bind (follow_stmts px f o q (length ts) [TDo] (tl ts)) (fun r1 =>
+      match r1 with
+      | TDo :: r2 => bind (follow_stmts px f o q (length r1) [TDone] r2) (fun r3 =>
+                       match r3 with TDone :: r4 => POk r4 | _ => perr o r3 EStmtEnd (length ts) end)
+      | _ => perr o r1 EFollowRsrv (length ts)
+      end).
+  Proof. reflexivity. Qed.
+
+  Lemma eof_follow : forall f o q lpos stops, eof_ok end_l (follow_stmts px f (S o) q lpos stops []).
+  Proof. intros. apply (proj1 (proj2 (proj2 (proj2 (proj2 (proj2 (eof_all px f))))))). Qed.
+
+  Lemma step_while : forall f, Pfollow f -> Pwhile (S f).
+  Proof.
+    intros f If o q t ts. rewrite !while_S. simpl tl.
+    eapply pre_g_bind; [apply If| |].
+    - intros v v' [Hne ->]. destruct v' as [|t1 y]; [congruence|]. simpl app.
+      destruct t1; try apply pre_perr.
+      eapply pre_g_bind; [apply If| |].
+      + intros v v' [Hne2 ->]. destruct v' as [|t2 z]; [congruence|]. simpl app.
+        destruct t2; try apply pre_perr. apply pre_l_any.
+      + intros a ->. apply eof_perr.
+    - intros a ->. apply eof_perr.
+  Qed.
+
+  Lemma elif_S : forall f o q ipos ts, elif_loop px (S f) o q ipos ts =
+    match ts with
+    | TElif :: r0 =>
+        bind (follow_stmts px f o q (length ts) [TThen] r0) (fun r1 =>
+        match r1 with
+        | TThen :: r2 => bind (follow_stmts px f o q (length r1) [TFi; TElif; TElse] r2) (fun r3 => elif_loop px f o q ipos r3)
+        | _ => perr o r1 EFollowRsrv (length ts)
+        end)
+    | _ =>
+        bind (match ts with TElse :: r0 => follow_stmts px f o q (length ts) [TFi] r0 | _ => POk ts end) (fun r5 =>
+        match r5 with TFi :: r6 => POk r6 | _ => perr o r5 EStmtEnd ipos end)
+    end.
+  Proof. intros. destruct ts as [|[] ?]; reflexivity. Qed.
+
+  Lemma eof_elif : forall f o q ipos, eof_ok end_l (elif_loop px f (S o) q ipos []).
+  Proof. intros. apply (proj1 (proj2 (proj2 (proj2 (proj2 (proj2 (proj2 (proj2 (proj2 (proj2 (eof_all px f))))))))))). Qed.
+
+  Lemma step_elif : forall f, Pfollow f -> Pelif f -> Pelif (S f).
+  Proof.
+    intros f If Ie o q ipos ipos' ts.
+    destruct ts as [|t ts]; [apply pre_g_eof; apply eof_elif|].
+    rewrite !elif_S. simpl app.
+    assert (FI : forall y, pre_l
+       (match y ++ r with TFi :: r6 => POk r6 | _ => perr (S o) (y ++ r) EStmtEnd ipos end)
+       (match y with TFi :: r6 => POk r6 | _ => perr (S o) y EStmtEnd ipos' end) \/ y = []).
+    { intros [|t1 y]; [right; reflexivity|left]. simpl app. destruct t1; try apply pre_perr. apply pre_l_any. }
+    destruct t; simpl.
+    all: try exact I.
+    all: try (rewrite !bind_POk; destruct (FI (_ :: ts)) as [H|H]; [exact H|discriminate]).
+    - (* TElif *)
+      eapply pre_g_bind; [apply If| |].
+      + intros v v' [Hne ->]. destruct v' as [|t1 y]; [congruence|]. simpl app.
+        destruct t1; try apply pre_perr.
+        eapply pre_g_bind; [apply If| |].
+        * intros v v' [Hne2 ->]. apply Ie.
+        * intros a ->. apply eof_elif.
+      + intros a ->. apply eof_perr.
+    - (* TElse *)
+      eapply pre_g_bind; [apply If| |].
+      + intros v v' [Hne ->]. destruct (FI v') as [H|H]; [exact H|congruence].
+      + intros a ->. apply eof_perr.
+    - rewrite bind_POk. destruct ts as [|t1 y]; [right; reflexivity|]. left. eexists. split; [reflexivity|]. split; [discriminate|reflexivity].
+  Qed.
+
+  Lemma if_S : forall f o q ts, if_clause px (S f) o q ts =
+    bind (follow_stmts px f o q (length ts) [TThen] (tl ts)) (fun r1 =>
+      match r1 with
+      | TThen :: r2 => bind (follow_stmts px f o q (length r1) [TFi; TElif; TElse] r2) (fun r3 => elif_loop px f o q (length ts) r3)
+      | _ => perr o r1 EFollowRsrv (length ts)
+      end).
+  Proof. reflexivity. Qed.
+
+  Lemma step_if : forall f, Pfollow f -> Pelif f -> Pif (S f).
+  Proof.
+    intros f If Ie o q t ts. rewrite !if_S. simpl tl.
+    eapply pre_g_bind; [apply If| |].
+    - intros v v' [Hne ->]. destruct v' as [|t1 y]; [congruence|]. simpl app.
+      destruct t1; try apply pre_perr.
+      eapply pre_g_bind; [apply If| |].
+      + intros v v' [Hne2 ->]. apply Ie.
+      + intros a ->. apply eof_elif.
+    - intros a ->. apply eof_perr.
+  Qed.
+
+  Lemma func_S : forall f o q npos ts, func_decl px (S f) o q npos ts =
+    bind (get_stmt px f o q false false (got_newl ts)) (fun v =>
+      match v with None => perr o (got_newl ts) EFuncBody npos | Some (r2, _) => POk r2 end).
+  Proof. reflexivity. Qed.
+
+  Lemma eof_func : forall f o q npos, eof_ok end_l (func_decl px f (S o) q npos []).
+  Proof. intros. apply (proj2 (proj2 (proj2 (proj2 (proj2 (proj2 (proj2 (proj2 (proj2 (proj2 (proj2 (proj2 (proj2 (proj2 (eof_all px f))))))))))))))). Qed.
+
+  Lemma step_func : forall f, Pget f -> Pfunc (S f).
+  Proof.
+    intros f Ig o q npos npos' ts.
+    destruct ts as [|t ts]; [apply pre_g_eof; apply eof_func|].
+    rewrite !func_S.
+    assert (G : forall y, pre_l
+      (bind (get_stmt px f (S o) q false false (y ++ r)) (fun v => match v with None => perr (S o) (y ++ r) EFuncBody npos | Some (r2, _) => POk r2 end))
+      (bind (get_stmt px f (S o) q false false y) (fun v => match v with None => perr (S o) y EFuncBody npos' | Some (r2, _) => POk r2 end))).
+    { intro y. eapply pre_g_bind; [apply Ig| |].
+      - intros [[a b]|] [[a' b']|] L; simpl in L; try contradiction; [|apply pre_perr].
+        destruct L as (Hne & E1 & E2). simpl in *. subst. destruct a' as [|t1 a']; [congruence|]. apply pre_l_lock.
+      - intros [[a b]|] E; simpl in E; subst; [eofr | apply eof_perr]. }
+    destruct (token_eq_dec t TNewl) as [->|N].
+    - simpl got_newl. destruct ts as [|t2 ts].
+      + apply pre_g_eof. eapply eof_bind; [apply (proj1 (proj2 (eof_all px f)))|]. intros [[a b]|] E; simpl in E; subst; [eofr | apply eof_perr].
+      + apply G.
+    - assert (E1 : forall y, got_newl (t :: y) = t :: y) by (intro y; destruct t; try reflexivity; congruence).
+      simpl app. rewrite !E1. apply (G (t :: ts)).
+  Qed.
+
+  (* ---------- option-valued functions ---------- *)
+  Lemma pre_ob_any : forall ts y b, pre_ob ts (POk (Some (y ++ r, b))) (POk (Some (y, b))).
+  Proof.
+    intros ts [|t y] b; [right; reflexivity|]. left. eexists. split; [reflexivity|]. simpl. repeat split. discriminate.
+  Qed.
+  Lemma pre_o_any : forall ts y, pre_o ts (POk (Some (y ++ r))) (POk (Some y)).
+  Proof.
+    intros ts [|t y]; [right; reflexivity|]. left. eexists. split; [reflexivity|]. simpl. split; [discriminate|reflexivity].
+  Qed.
+
+  Lemma and_or_some : forall f o q re bc ts, and_or px f o q re bc ts <> POk None.
+  Proof.
+    induction f as [|f IH]; intros o q re bc ts; [discriminate|].
+    simpl. destruct ts as [|t x]; [destruct re; discriminate|].
+    assert (D : (if re then match t :: x with (TSemi | TAmp) :: r0 => POk (Some (r0, true)) | _ => POk (Some (t :: x, false)) end
+                 else POk (Some (t :: x, false))) <> POk None).
+    { destruct re; [destruct t|]; discriminate. }
+    destruct t; try exact D; destruct bc; try discriminate;
+      (unfold bind; destruct (get_stmt px f o q false true (got_newl x)) as [[[a b]|]| |]; try (unfold perr; discriminate); try apply IH).
+  Qed.
+
+  Lemma pipe_loop_some : forall f o q bc ts, pipe_loop px f o q bc ts <> POk None.
+  Proof.
+    induction f as [|f IH]; intros o q bc ts; [discriminate|].
+    simpl. destruct ts as [|t x]; [discriminate|].
+    destruct t; try discriminate. destruct bc; [discriminate|].
+    unfold bind. destruct (stmt_pipe px f o q false true (length (got_newl x)) (got_newl x)) as [[a|]| |]; try (unfold perr; discriminate); try apply IH.
+  Qed.
+
+  (* end_ob / end_o do not depend on the input when the value is not None *)
+  Lemma eof_ob_some : forall ts ts' (x : pres (option (list token * bool))), x <> POk None -> eof_ok (end_ob ts) x -> eof_ok (end_ob ts') x.
+  Proof. intros ts ts' [[v|]| |] N H; simpl in *; auto. congruence. Qed.
+  Lemma eof_o_some : forall ts ts' (x : pres (option (list token))), x <> POk None -> eof_ok (end_o ts) x -> eof_ok (end_o ts') x.
+  Proof. intros ts ts' [[v|]| |] N H; simpl in *; auto. congruence. Qed.
+  Lemma pre_ob_some : forall ts ts' full pre, pre <> POk None -> pre_ob ts full pre -> pre_ob ts' full pre.
+  Proof. intros ts ts' [v| |] pre N H; simpl in *; auto. destruct H as [H|H]; [left; exact H|right; eapply eof_ob_some; eauto]. Qed.
+  Lemma pre_o_some : forall ts ts' full pre, pre <> POk None -> pre_o ts full pre -> pre_o ts' full pre.
+  Proof. intros ts ts' [v| |] pre N H; simpl in *; auto. destruct H as [H|H]; [left; exact H|right; eapply eof_o_some; eauto]. Qed.
+
+  Lemma eof_andor : forall f o q re bc ts', eof_ok (end_ob ts') (and_or px f (S o) q re bc []).
+  Proof. intros. eapply eof_ob_some; [apply and_or_some|]. apply (proj1 (proj2 (proj2 (eof_all px f)))). Qed.
+  Lemma eof_ploop : forall f o q bc ts', eof_ok (end_o ts') (pipe_loop px f (S o) q bc []).
+  Proof. intros. eapply eof_o_some; [apply pipe_loop_some|]. apply (proj1 (proj2 (proj2 (proj2 (proj2 (eof_all px f)))))). Qed.
+  Lemma eof_get : forall f o q re bc, eof_ok (end_ob []) (get_stmt px f (S o) q re bc []).
+  Proof. intros. apply (proj1 (proj2 (eof_all px f))). Qed.
+  Lemma eof_pipe : forall f o q ng bc sp, eof_ok (end_o []) (stmt_pipe px f (S o) q ng bc sp []).
+  Proof. intros. apply (proj1 (proj2 (proj2 (proj2 (eof_all px f))))). Qed.
+
+  Lemma and_or_S : forall f o q re bc ts, and_or px (S f) o q re bc ts =
+    match ts with
+    | (TAndAnd | TOrOr) :: r0 =>
+        if bc then POk (Some (ts, false))
+        else bind (get_stmt px f o q false true (got_newl r0)) (fun v =>
+             match v with None => perr o (got_newl r0) EAfterOp (length ts) | Some (r2, _) => and_or px f o q re bc r2 end)
+    | _ => if re then match ts with (TSemi | TAmp) :: r0 => POk (Some (r0, true)) | _ => POk (Some (ts, false)) end
+           else POk (Some (ts, false))
+    end.
+  Proof. intros. destruct ts as [|[] ?]; reflexivity. Qed.
+
+  Lemma got_newl_cases : forall x, (got_newl x = [] /\ (x = [] \/ x = [TNewl])) \/
+                                   (exists t y, got_newl x = t :: y /\ got_newl (x ++ r) = (t :: y) ++ r).
+  Proof.
+    intros [|t x]; [left; split; [reflexivity|left; reflexivity]|].
+    destruct (token_eq_dec t TNewl) as [->|N].
+    - simpl. destruct x as [|t2 y]; [left; split; [reflexivity|right; reflexivity]|]. right. exists t2, y. split; reflexivity.
+    - right. exists t, x. assert (E1 : forall y, got_newl (t :: y) = t :: y) by (intro y; destruct t; try reflexivity; congruence).
+      simpl app. rewrite !E1. split; reflexivity.
+  Qed.
+
+  Lemma step_andor : forall f, Pget f -> Pandor f -> Pandor (S f).
+  Proof.
+    intros f Ig Ia o q re bc ts.
+    destruct ts as [|t x]; [apply pre_g_eof; apply (proj1 (proj2 (proj2 (eof_all px (S f)))))|].
+    rewrite !and_or_S. simpl app.
+    assert (LK : pre_ob (t :: x) (POk (Some (t :: x ++ r, false))) (POk (Some (t :: x, false)))).
+    { apply (pre_ob_any (t :: x) (t :: x) false). }
+    assert (OP : forall n n', pre_ob (t :: x)
+       (bind (get_stmt px f (S o) q false true (got_newl (x ++ r))) (fun v =>
+             match v with None => perr (S o) (got_newl (x ++ r)) EAfterOp n | Some (r2, _) => and_or px f (S o) q re bc r2 end))
+       (bind (get_stmt px f (S o) q false true (got_newl x)) (fun v =>
+             match v with None => perr (S o) (got_newl x) EAfterOp n' | Some (r2, _) => and_or px f (S o) q re bc r2 end))).
+    { intros n n'. destruct (got_newl_cases x) as [[E _]|(t1 & y & E1 & E2)].
+      - rewrite E. apply pre_g_eof. eapply eof_bind; [apply eof_get|].
+        intros [[a b]|] H; simpl in H; subst; [apply eof_andor | apply eof_perr].
+      - rewrite E1, E2. eapply pre_g_bind; [apply Ig| |].
+        + intros [[a b]|] [[a' b']|] L; simpl in L; try contradiction; [|apply pre_perr].
+          destruct L as (Hne & H1 & H2). simpl in *. subst. eapply pre_ob_some; [apply and_or_some | apply Ia].
+        + intros [[a b]|] H; simpl in H; [subst; apply eof_andor | discriminate]. }
+    destruct t; try (destruct re; exact LK).
+    - (* TSemi *) destruct re; [apply pre_ob_any | exact LK].
+    - (* TAmp *) destruct re; [apply pre_ob_any | exact LK].
+    - (* TAndAnd *) destruct bc; [exact LK | apply OP].
+    - (* TOrOr *) destruct bc; [exact LK | apply OP].
+  Qed.
+
+  Lemma pipe_loop_S : forall f o q bc ts, pipe_loop px (S f) o q bc ts =
+    match ts with
+    | TPipe :: r0 =>
+        if bc then POk (Some ts)
+        else bind (stmt_pipe px f o q false true (length (got_newl r0)) (got_newl r0)) (fun v =>
+             match v with None => perr o (got_newl r0) EAfterOp (length ts) | Some r2 => pipe_loop px f o q bc r2 end)
+    | _ => POk (Some ts)
+    end.
+  Proof. intros. destruct ts as [|[] ?]; reflexivity. Qed.
+
+  Lemma step_ploop : forall f, Ppipe f -> Pploop f -> Pploop (S f).
+  Proof.
+    intros f Ip Il o q bc ts.
+    destruct ts as [|t x]; [apply pre_g_eof; apply (proj1 (proj2 (proj2 (proj2 (proj2 (eof_all px (S f)))))))|].
+    rewrite !pipe_loop_S. simpl app.
+    assert (LK : pre_o (t :: x) (POk (Some (t :: x ++ r))) (POk (Some (t :: x)))).
+    { apply (pre_o_any (t :: x) (t :: x)). }
+    destruct t; try exact LK.
+    destruct bc; [exact LK|].
+    destruct (got_newl_cases x) as [[E _]|(t1 & y & E1 & E2)].
+    - rewrite E. apply pre_g_eof. eapply eof_bind; [apply eof_pipe|].
+      intros [a|] H; simpl in H; subst; [apply eof_ploop | apply eof_perr].
+    - rewrite E1, E2. eapply pre_g_bind; [apply Ip| |].
+      + intros [a|] [a'|] L; simpl in L; try contradiction; [|apply pre_perr].
+        destruct L as (Hne & ->). eapply pre_o_some; [apply pipe_loop_some | apply Il].
+      + intros [a|] H; simpl in H; [subst; apply eof_ploop | discriminate].
+  Qed.
+
+  Lemma get_stmt_S : forall f o q re bc ts, get_stmt px (S f) o q re bc ts =
+    bind (match ts with
+          | TBang :: r0 =>
+              if stop_token r0 then perr o r0 EBangAlone (length ts)
+              else match r0 with TBang :: r2 => perr o r2 EBangMulti (length ts) | _ => POk (true, r0) end
+          | _ => POk (false, ts)
+          end) (fun nr =>
+    let '(negated, ts1) := nr in
+    bind (stmt_pipe px f o q negated false (length ts) ts1) (fun sp =>
+      match sp with None => POk None | Some r0 => and_or px f o q re bc r0 end)).
+  Proof. reflexivity. Qed.
+
+  Lemma step_get : forall f, Ppipe f -> Pandor f -> Pget (S f).
+  Proof.
+    intros f Ip Ia o q re bc ts.
+    destruct ts as [|t x]; [apply pre_g_eof; apply eof_get|].
+    rewrite !get_stmt_S.
+    (* the part after the negation has been read, on a non-empty remaining input *)
+    assert (K : forall ng n n' t1 y, pre_ob (t :: x)
+      (bind (stmt_pipe px f (S o) q ng false n ((t1 :: y) ++ r)) (fun sp => match sp with None => POk None | Some r0 => and_or px f (S o) q re bc r0 end))
+      (bind (stmt_pipe px f (S o) q ng false n' (t1 :: y)) (fun sp => match sp with None => POk None | Some r0 => and_or px f (S o) q re bc r0 end))).
+    { intros ng n n' t1 y. eapply pre_g_bind; [apply Ip| |].
+      - intros [a|] [a'|] L; simpl in L; try contradiction.
+        + destruct L as (Hne & ->). eapply pre_ob_some; [apply and_or_some | apply Ia].
+        + left. exists None. split; [reflexivity|exact I].
+      - intros [a|] H; simpl in H; [subst; apply eof_andor | discriminate]. }
+    destruct (token_eq_dec t TBang) as [->|N].
+    - simpl app. destruct x as [|t2 y].
+      + apply pre_g_eof. unfold bind, perr. simpl. reflexivity.
+      + simpl app. change (stop_token (t2 :: y ++ r)) with (stop_token (t2 :: y)).
+        destruct (stop_token (t2 :: y)); [rewrite bind_perr; exact I|].
+        destruct t2; try (rewrite !bind_POk; apply K).
+        rewrite bind_perr. exact I.
+    - assert (E : forall z, match t :: z with
+          | TBang :: r0 => if stop_token r0 then perr (S o) r0 EBangAlone (length (t :: z))
+                           else match r0 with TBang :: r2 => perr (S o) r2 EBangMulti (length (t :: z)) | _ => POk (true, r0) end
+          | _ => POk (false, t :: z) end = POk (false, t :: z)) by (intro z; destruct t; try reflexivity; congruence).
+      simpl app. rewrite !E, !bind_POk. apply K.
+  Qed.
+End P3.
